@@ -396,6 +396,7 @@ class Check:
             path = os.path.join(REPLAY, f"{self.prop}-{self.seed}.json")
             json.dump({"property": self.prop, "what": what, "replay": obj,
                        "all": [{"what": w, "replay": o} for w, o in self.violations[:20]],
+                       "also_no_longer_checks": [{"what": w, "detail": d} for w, d in self.tie_breaks[:20]],
                        "rerun": f"./wv check {self.prop} --replay {path}"},
                       open(path, "w"), indent=1, default=str)
             lines.append(f"VIOLATION property={self.prop} replay={path}")
